@@ -23,7 +23,12 @@ def confirm(pid, n):
         rc0, out0 = sh(["/venv/bin/python", f"{src}/demo.py", wt], cwd=wt, env=env)
         ran.append(f"demo on clean tree: exit {rc0}")
         rc, out = sh(["git", "apply", f"{src}/patch.diff"], cwd=wt)
+        rebased = False
+        if rc:
+            rc, out = sh(["git", "apply", "--3way", f"{src}/patch.diff"], cwd=wt)
+            rebased = True
         if rc: return pid, n, "patch does not apply: " + out[-300:]
+        _, cur_diff = sh(["git", "diff", "HEAD"], cwd=wt)
         rc1, out1 = sh(["/venv/bin/python", f"{src}/demo.py", wt], cwd=wt, env=env)
         ran.append(f"demo with patch: exit {rc1}")
         rcb, outb = sh(["/venv/bin/python", f"{V}/tools/baseline_check.py", wt])
@@ -32,11 +37,14 @@ def confirm(pid, n):
         if ok:
             dst = f"{V}/seeded/{pid}-{int(n) + int(os.environ.get('SEED_OFFSET', '0'))}"
             os.makedirs(dst, exist_ok=True)
-            shutil.copy(f"{src}/patch.diff", dst); shutil.copy(f"{src}/demo.py", dst)
+            shutil.copy(f"{src}/demo.py", dst)
+            open(f"{dst}/patch.diff", "w").write(cur_diff if rebased else open(f"{src}/patch.diff").read())
             meta = json.load(open(f"{src}/meta.json")) if os.path.exists(f"{src}/meta.json") else {}
             meta["property"] = pid
             meta["round"] = int(os.environ.get("SEED_ROUND", "2" if os.environ.get("SEED_OFFSET") else "1"))
             meta["confirmed"] = ran
+            if rebased:
+                meta["rebased"] = "3-way merged onto the current /repo HEAD (the agent's worktree predates later fix: commits)"
             meta["demo_output_with_patch"] = out1[-1500:]
             json.dump(meta, open(f"{dst}/meta.json", "w"), indent=1)
         return pid, n, ("CONFIRMED " if ok else "REJECTED ") + "; ".join(ran)
